@@ -34,12 +34,12 @@ func getCachedPath(expr string) []string {
 	parts := splitPathImpl(expr)
 
 	// Cache if under limit
+	verifPoint(vpPathStore, 0, 0)
+	pathCache.Lock()
 	if len(pathCache.m) < pathCacheLimit {
-		verifPoint(vpPathStore, 0, 0)
-		pathCache.Lock()
 		pathCache.m[expr] = parts
-		pathCache.Unlock()
 	}
+	pathCache.Unlock()
 
 	return parts
 }
